@@ -1901,6 +1901,15 @@ func (cs *State) addProposalBlockPart(msg *BlockPartMessage, peerID p2p.ID) (add
 			return added, err
 		}
 
+		// The block id that is voted on names these parts. Everybody who later gets the
+		// block in one piece (block sync, the block store) derives the parts from the
+		// block: they must be the ones the block itself yields - not the same bytes cut
+		// differently, nor another encoding of the same block.
+		if !block.MakePartSet(types.BlockPartSizeBytes).HasHeader(cs.ProposalBlockParts.Header()) {
+			return added, fmt.Errorf("proposal block parts %v are not the parts of the block they contain",
+				cs.ProposalBlockParts.Header())
+		}
+
 		cs.ProposalBlock = block
 
 		// NOTE: it's possible to receive complete proposal blocks for future rounds without having the proposal
